@@ -497,6 +497,11 @@ func checkCase(t ev.T, test string, c Case) {
 	case <-done:
 	case <-time.After(60 * time.Second):
 		restore()
+		if time.Duration(maxGap.Load()) > 100*time.Millisecond {
+			// (seen in the thorough tier on the shard confined to one processor, race detector on, machine load above 100)
+			ev.Inconclusive("producers did not finish within 60 s on a visibly stalling machine: not judged")
+			return
+		}
 		ev.Fail(t, prop, test, c, "producers did not finish within 60 s (a logger call blocked)")
 	}
 	// ring-buffered sinks: wait until they are quiet
